@@ -103,82 +103,6 @@ def _stmts(case):
     return nodes
 
 
-def _escaped(case, record):
-    """the exception left the driver's own try/catch: a script / STEP error, or fewer observations than calls"""
-    obs = record.get("obs") or ""
-    if obs.startswith("script error") or obs.startswith("STEP error"):
-        return True
-    try:
-        out = json.loads(obs)
-        return isinstance(out, list) and len(out) < len(case.get("ops") or [])
-    except Exception:
-        return False
-
-
-def _finally_blocks(case, nested_in_try=False):
-    """finally blocks of the top-level body and of inner generators; with nested_in_try only those of try statements
-    that lie inside the protected block (or catch clause) of another try statement"""
-    res = []
-    for path, n in _stmts(case):
-        if n.get("k") in ("tryfinally", "trycf"):
-            fin = n.get("b") if n["k"] == "tryfinally" else n.get("c")
-            if nested_in_try:
-                # walk up: is some ancestor a try statement reached through its "a" (or catch "b" of trycf/trycatch)?
-                node, ok = case, False
-                anc = []
-                for key in path:
-                    anc.append((node, key))
-                    node = node[key] if isinstance(node, dict) else None
-                for a, key in anc:
-                    if isinstance(a, dict) and a.get("k") in ("tryfinally", "trycf", "trycatch") and key == "a":
-                        ok = True
-                    if isinstance(a, dict) and a.get("k") in ("trycf",) and key == "b":
-                        ok = True
-                if not ok:
-                    continue
-            res.append(fin)
-    return res
-
-
-def pred_return_closes_throwing_iterator(case, record, expected):
-    """C09-N7: a return() in the history, a for-of over a hand-written iterator whose return() throws or answers a
-    non-object (rtn T / N) located inside a finally block, and the exception escaped the driver's try/catch"""
-    if case.get("kind") != "gen" or "return" not in [o.get("k") for o in case.get("ops") or []]:
-        return False
-    if not _escaped(case, record):
-        return False
-    for fin in _finally_blocks(case):
-        blk = []
-        _walk(fin, [], blk)
-        for _, m in blk:
-            if m.get("k") == "forof" and isinstance(m.get("s"), dict) and (m["s"].get("h") or {}).get("rtn") in ("T", "N"):
-                return True
-    return False
-
-
-_CAN_RAISE = ('"k": "throw"', '"k": "bad"', '"k": "forof"', '"k": "ystar"')
-
-
-def pred_exception_in_return_finally(case, record, expected):
-    """C09-N9: a return() in the history, a try/finally nested inside another try statement whose finally block
-    contains something that can raise (throw, a non-iterable, iterator protocol calls), and the exception escaped the
-    driver's try/catch"""
-    if case.get("kind") != "gen" or "return" not in [o.get("k") for o in case.get("ops") or []]:
-        return False
-    if not _escaped(case, record):
-        return False
-    for fin in _finally_blocks(case, nested_in_try=True):
-        txt = json.dumps(fin)
-        if any(t in txt for t in _CAN_RAISE):
-            return True
-    return False
-
-
-def pred_await_bad_constructor(case, record, expected):
-    """C09-N8: an async case that awaits a promise whose constructor getter throws"""
-    return case.get("kind") == "async" and '"k": "awaitbad"' in json.dumps([case.get("body"), case.get("body2")])
-
-
 CFG = {
     "id": "C09",
     "harness": "c09",
@@ -215,11 +139,7 @@ CFG = {
         "body activations and delegation chains terminate (fuel); out-of-fuel is an explicit outcome on both sides",
         "async functions: correspondence only (await resumption order = round-robin over settled promises)",
     ],
-    "predicates": {
-        "C09.return_closes_throwing_iterator_inside_finally": pred_return_closes_throwing_iterator,
-        "C09.await_promise_with_throwing_constructor": pred_await_bad_constructor,
-        "C09.exception_in_return_finally_skips_outer_handlers": pred_exception_in_return_finally,
-    },
+    "predicates": {},
     "manifest": {
         "text": ("proof: goja's generatorObject state machine (states, delegated iterator, next/throw/return, yield* forwarding "
                  "with missing throw/return) is proved to answer every driver history exactly as ECMA-262 27.5.3 + 14.4.14 for "
